@@ -12,7 +12,7 @@ import itertools
 from common import Check, hx, phash, run_driver_parallel
 import fh
 
-TYPES = [1, 127, 128, 16383, 16384, 2**21, 2**32 + 5]
+TYPES = [0, 1, 127, 128, 16383, 16384, 2**21, 2**32 + 5]
 SMALL_LENS = [0, 1, 2, 127, 128, 300]
 BIG_LENS = [16383, 16384, 16385, 70000]
 
